@@ -190,6 +190,16 @@ def enumerate_rewrites(schema, doc):
             n = node_at(d2, idx)
             n[4].sels.insert(n[5], Field("__nopeMeta"))
         add("fields-exist", site + "/reserved-name", ins_unknown_meta)
+        def tn_bad_arg(d2, idx=idx):
+            # __typename takes no argument, whatever the parent (object, interface, union)
+            n = node_at(d2, idx)
+            n[4].sels.insert(n[5], Field("__typename", "tnBadArg", [("bogus", ("int", 1))]))
+        add("known-argument", site + "/__typename-on-" + str(pk).lower(), tn_bad_arg)
+
+        def tn_sel(d2, idx=idx):
+            n = node_at(d2, idx)
+            n[4].sels.insert(n[5], Field("__typename", "tnSel", [], [], [Field("__typename")]))
+        add("leaf-selection-on-scalar", site + "/__typename-on-" + str(pk).lower(), tn_sel)
         if not (ctx == "op" and getattr(owner, "op", None) == "query") and parent != schema.query:
             def ins_schema_below_root(d2, idx=idx):
                 # __schema / __type are fields of the query root type only
@@ -267,6 +277,14 @@ def enumerate_rewrites(schema, doc):
                                 for oi in reach:
                                     d2.operations()[oi].vardefs.append(("wrongTypedVar", bad, ABSENT))
                             add("variable-allowed-in-position", site + ("/nested-value" if vpath else "/argument"), wrong_var)
+
+                            def unknown_type_var(d2, idx=idx, an=an, vpath=vpath, reach=reach):
+                                # a variable declared with a type the schema does not define (so: not an input type)
+                                n = node_at(d2, idx)[0]
+                                n.args = [(a, _replace_at(v, vpath, ("var", "unknownTypeVar")) if a == an else v) for a, v in n.args]
+                                for oi in reach:
+                                    d2.operations()[oi].vardefs.append(("unknownTypeVar", L(NN(N("NopeType"))) if vpath else N("NopeType"), ABSENT))
+                            add("variable-is-input-type", site + ("/unknown-type/nested-value" if vpath else "/unknown-type/argument"), unknown_type_var)
                         if True:
                             # variable of the wrong type / undefined variable in this position
                             def undef_var(d2, idx=idx, an=an, vpath=vpath):
